@@ -19,6 +19,8 @@ pub struct FileCase {
     pub e: u64,
     /// (before poll index, new length)
     pub truncs: Vec<(usize, u64)>,
+    /// a second stream of the same entity (another range), alive at the same time and polled alternately
+    pub companion: Option<(u64, u64)>,
     pub class: String,
 }
 
@@ -102,10 +104,15 @@ pub fn run(rt: &tokio::runtime::Runtime, dir: &std::path::Path, c: &FileCase, ch
             let truncs = c.truncs.clone();
             let p2 = path.clone();
             let crf2 = crf.clone();
-            let polls: Vec<(Val, u64, u64)> = rt.block_on(async move {
+            let companion = c.companion;
+            let (polls, companion_ok): (Vec<(Val, u64, u64)>, bool) = rt.block_on(async move {
                 tokio::spawn(async move {
                     let mut out = vec![];
                     let mut stream: Pin<Box<dyn Stream<Item = Result<Bytes, BoxError>> + Send + Sync>> = crf2.get_range(a..e);
+                    // the companion: "cheap to clone and reuse for many requests" -- two bodies of one entity
+                    let mut comp: Option<(Pin<Box<dyn Stream<Item = Result<Bytes, BoxError>> + Send + Sync>>, u64, u64)> =
+                        companion.map(|(b, f)| (crf2.get_range(b..f), b, f));
+                    let mut comp_ok = true;
                     let mut cur = a;
                     let mut after_terminal = 0;
                     let mut k = 0usize;
@@ -118,6 +125,28 @@ pub fn run(rt: &tokio::runtime::Runtime, dir: &std::path::Path, c: &FileCase, ch
                         }
                         let flen = std::fs::metadata(&p2).map(|m| m.len()).unwrap_or(0);
                         let r = std::future::poll_fn(|cx| stream.as_mut().poll_next(cx)).await;
+                        // one poll of the companion after each poll of the stream under observation
+                        let mut comp_done = false;
+                        if let Some((cs, pos, end)) = comp.as_mut() {
+                            match std::future::poll_fn(|cx| cs.as_mut().poll_next(cx)).await {
+                                None => {
+                                    comp_ok &= *pos == *end;
+                                    comp_done = true;
+                                }
+                                Some(Ok(d)) => {
+                                    comp_ok &= !d.is_empty() && d.iter().enumerate().all(|(i, b)| *b == content(*pos + i as u64));
+                                    *pos += d.len() as u64;
+                                    comp_ok &= *pos <= *end;
+                                }
+                                Some(Err(_)) => {
+                                    comp_ok = false;
+                                    comp_done = true;
+                                }
+                            }
+                        }
+                        if comp_done {
+                            comp = None;
+                        }
                         k += 1;
                         let ended = r.is_none();
                         let (v, short, terminal) = match r {
@@ -144,11 +173,14 @@ pub fn run(rt: &tokio::runtime::Runtime, dir: &std::path::Path, c: &FileCase, ch
                             break;
                         }
                     }
-                    out
+                    (out, comp_ok)
                 })
                 .await
                 .unwrap()
             });
+            if !companion_ok {
+                checks.push("C18:second-stream-of-the-same-entity-does-not-yield-its-range".into());
+            }
             // metadata is that of construction time, whatever happened to the file since
             if crf.len() != len0 || crf.len() != size {
                 checks.push("C18:len-not-that-of-construction".into());
@@ -290,7 +322,7 @@ pub fn gen_c18(rng: &mut Rng, thorough: bool, emit: &mut dyn FnMut(FileCase)) {
             if !thorough && !rng.chance(1, 2) && !(a == 0 && e == size) {
                 continue;
             }
-            emit(FileCase { kind: 0, size, a, e, truncs: vec![], class: format!("G:intact size={} range={}..{}", size, a, e) });
+            emit(FileCase { kind: 0, size, a, e, truncs: vec![], companion: None, class: format!("G:intact size={} range={}..{}", size, a, e) });
             if e > a {
                 // truncation to every interesting length, before each of the first polls
                 let mut ts: Vec<u64> = vec![0, a, a + 1, (a + e) / 2, e - 1, e, a + 65536, a + 65535, a + 65537];
@@ -302,18 +334,23 @@ pub fn gen_c18(rng: &mut Rng, thorough: bool, emit: &mut dyn FnMut(FileCase)) {
                         if !thorough && !rng.chance(1, 3) {
                             continue;
                         }
-                        emit(FileCase { kind: 0, size, a, e, truncs: vec![(j, t)], class: format!("F:truncate size={} range={}..{} to={} before-poll={}", size, a, e, t, j) });
+                        emit(FileCase { kind: 0, size, a, e, truncs: vec![(j, t)], companion: None, class: format!("F:truncate size={} range={}..{} to={} before-poll={}", size, a, e, t, j) });
                     }
                 }
             }
         }
     }
+    // two streams of one entity alive at once, polled alternately (the type is documented as cheap to
+    // clone and reuse for many requests; every stream must still yield its own range)
+    for (size, a, e, b, f) in [(200001u64, 0u64, 150000u64, 100000u64, 200001u64), (200001, 65536, 200001, 0, 131072), (131072, 0, 131072, 0, 131072), (200001, 1, 70000, 5, 9), (200001, 5, 9, 1, 140000)] {
+        emit(FileCase { kind: 0, size, a, e, truncs: vec![], companion: Some((b, f)), class: format!("G:two-streams size={} range={}..{} companion={}..{}", size, a, e, b, f) });
+    }
     // a sparse file longer than 4 GiB: ranges whose length is, or passes through, a multiple of 2^32
     // (a 32-bit read size would be 0 there); only the first polls are made
     let big: u64 = (1u64 << 32) + 131079;
     for (a, e) in [(0u64, 1u64 << 32), (0, (1 << 32) + 5), (5, (1 << 32) + 5), (70000, (1 << 32) + 70000), (0, big), (65536, (1u64 << 32) + 65536 + 65536), (1, 1 << 32)] {
-        emit(FileCase { kind: 3, size: big, a, e, truncs: vec![], class: format!("G:sparse size={} range={}..{}", big, a, e) });
+        emit(FileCase { kind: 3, size: big, a, e, truncs: vec![], companion: None, class: format!("G:sparse size={} range={}..{}", big, a, e) });
     }
-    emit(FileCase { kind: 1, size: 0, a: 0, e: 0, truncs: vec![], class: "N:directory".into() });
-    emit(FileCase { kind: 2, size: 0, a: 0, e: 0, truncs: vec![], class: "N:dev-null".into() });
+    emit(FileCase { kind: 1, size: 0, a: 0, e: 0, truncs: vec![], companion: None, class: "N:directory".into() });
+    emit(FileCase { kind: 2, size: 0, a: 0, e: 0, truncs: vec![], companion: None, class: "N:dev-null".into() });
 }
